@@ -305,7 +305,7 @@ MCREW_TIMERS_OVERLAY = {"pkg": "cmd/mcrew", "test": "TestVerifTimersDriver", "ra
                         "files": {"cmd/mcrew/zz_verif_timers_test.go": "go/overlay/mcrew_timers_test.go"}}
 
 SIO_HOST_OVERLAY = {"pkg": "sio", "test": "TestVerifSioHost", "race": False,
-                    "files": {"sio/zz_verif_host_test.go": "go/overlay/sio_host_test.go"}}
+                    "files": {"sio/zz_verif_host_test.go": "go/overlay_sio/sio_host_test.go"}}
 
 TIMERS_RULE = ("scripted scenarios over three timer ids with delays of 10-120 ms: make / cancel requests from the requester, from inside "
                "the handler of a firing message (re-create the firing id, cancel-and-re-create, re-create-then-cancel), sleeps, reads of "
@@ -574,7 +574,7 @@ PROPS = {
         },
         "analyze": analyze_generic,
         "oracles": [],
-        "probes": ["bindingsUntouched", "laterExecutionPristine", "repeatPristine", "concurrentPristine", "propsUntouched", "untouched"],
+        "probes": ["bindingsUntouched", "laterExecutionPristine", "repeatPristine", "concurrentPristine", "propsUntouched", "propsNotShared", "untouched", "noPanic"],
         "rule": ("polluter scripts (define globals, patch Object/Array/String prototypes, replace JSON/Math members and members of the "
                  "environment object, mutate their bindings in place at depth, delete bindings, mutate the step properties) followed by a "
                  "probe script that reports everything it can see, run sequentially on the same interpreter and concurrently from 16 "
@@ -591,7 +591,7 @@ PROPS = {
         },
         "analyze": analyze_generic,
         "oracles": ["total", "rule", "errSame"],
-        "probes": ["stopsWithError", "prompt", "noGoroutineLeak", "nothingLeftUnderLiveContext", "timeoutRoutedAsActionError"],
+        "probes": ["stopsWithError", "prompt", "noGoroutineLeak", "nothingLeftUnderLiveContext", "timeoutRoutedAsActionError", "noPanic"],
         "rule": ("scripts whose time is spent in interpreted code (empty loop, unbounded recursion, array churn, property churn, nested "
                  "arithmetic loops) under deadlines from already expired to 200 ms, with cancellation at a random moment, 1-16 concurrent "
                  "executions; every execution must end with an error within the deadline plus a generous slack (1.5 s, to stay clear of "
@@ -608,7 +608,7 @@ PROPS = {
         },
         "analyze": analyze_generic,
         "oracles": [],
-        "probes": ["concurrentSameAsAlone", "specUntouched", "specObjectsKept", "oneCompleteVersion", "noPanic", "dataRace"],
+        "probes": ["concurrentSameAsAlone", "specUntouched", "specObjectsKept", "copyIndependent", "oneCompleteVersion", "noPanic", "dataRace"],
         "rule": ("two random compiled specs; 8 distinct machine states walked over the same spec object from 24 goroutines and compared "
                  "with the result each obtains alone; the same walks through an UpdatableSpec that another goroutine keeps swapping between "
                  "the two versions, each result compared with the results under either version.  The same probes are re-run in a -race build (a small run in the "
